@@ -411,7 +411,9 @@ static void judge(UnitCtx& u, const std::string& p, const Ver& v, bool terrain, 
 				report(u, key, ctx + "a file carrying " + esc(p) + " loads as " + esc(ql) + " but the explicit clean-up gives " + esc(q1), p, v, terrain, g, s);
 			}
 		}
-		if (u.samples < 1 && q1 != p && p.size() >= 3 && p.size() <= 64 && (vf::fnv(p) % 97) == 0) { // a thin deterministic slice of the cases as literal samples
+		// a thin deterministic slice of the cases as literal samples: every path is eligible in exactly one configuration
+		uint64_t ph = vf::fnv(p);
+		if (u.samples < 2 && q1 != p && p.size() >= 3 && p.size() <= 64 && ph % 12 == (uint64_t) ((&v - VERS) * 2 + (terrain ? 1 : 0)) && (ph / 12) % 40 == 0) {
 			u.samples++;
 			st.sample(case_json(p, v, terrain, g, s).set("cleaned", q1.substr(0, 80)).set("cleaned_twice", q2.substr(0, 80)));
 		}
@@ -429,6 +431,14 @@ static J inflight_json(bool batch, size_t unit, const std::string& id, const std
 	return j;
 }
 
+// self-test of the crash / hang attribution path (never active in a registered run):
+// "--faultinject <pathid>/<ver>/<terrain>/<group> [--faultkind hang]" makes that one case die
+static void self_test_fault(const std::string& id, bool single) {
+	if (!A.has("faultinject") || A.get("faultinject") != id) return;
+	if (single && A.get("faultkind") == "hang") for (;;) sleep(1);
+	abort();
+}
+
 // one path in its own model (pinpointing mode and replay)
 static void eval_single(UnitCtx& u, size_t unit, uint64_t pathid, const std::string& p, int vi, bool terrain, int g, const std::set<std::string>& skip) {
 	const Ver& v = VERS[vi];
@@ -436,6 +446,7 @@ static void eval_single(UnitCtx& u, size_t unit, uint64_t pathid, const std::str
 	if (skip.count(id)) { u.st->add("cases_skipped_after_crash"); return; }
 	vf::set_inflight(inflight_json(false, unit, id, &p, v, terrain, g).dump());
 	alarm(WATCHDOG_S);
+	self_test_fault(id, true);
 	Batch b, rb;
 	RefRes ref;
 	bool ok = run_batch(v, terrain, g, {p}, b);
@@ -476,6 +487,7 @@ static bool eval_chunk(UnitCtx& u, size_t unit, const std::vector<uint64_t>& ids
 			{
 				vf::set_inflight(inflight_json(true, unit, "", nullptr, v, terrain, G_TEXSET).dump());
 				alarm(WATCHDOG_S);
+				if (A.has("faultinject")) for (size_t i = 0; i < paths.size(); i++) self_test_fault(case_id(ids[i], vi, terrain, G_TEXSET), false);
 				have_rb = run_batch(v, terrain, G_TEXSET, paths, rb);
 				alarm(0);
 			}
